@@ -40,3 +40,17 @@ theorem form_apply {m : Type*} [Fintype m] (J A : Matrix n n R) (x y : Matrix m 
 theorem word_hom {M : Type*} [Monoid M] {α : Type*} (g : α → M) (u v : List α) :
     ((u ++ v).map g).prod = (u.map g).prod * (v.map g).prod := by
   simp [List.map_append, List.prod_append]
+
+/-- conjugating a map that preserves a form `B` by a change of basis `W` (with inverse `Wi`) gives a map preserving
+the transported form `Wᵀ B W`: this is how `hyperbolic_rep` obtains O(d,1) matrices from the geometric
+representation (which preserves the cosine form) and `diagonalize_form` (which gives `Wᵀ B W = diag(±1)`). -/
+theorem conj_form (B W Wi s : Matrix n n R) (h1 : W * Wi = 1) (hs : sᵀ * B * s = B) :
+    (Wi * s * W)ᵀ * (Wᵀ * B * W) * (Wi * s * W) = Wᵀ * B * W := by
+  have hT : Wiᵀ * Wᵀ = 1 := by
+    rw [← Matrix.transpose_mul, h1, Matrix.transpose_one]
+  calc (Wi * s * W)ᵀ * (Wᵀ * B * W) * (Wi * s * W)
+      = Wᵀ * sᵀ * (Wiᵀ * Wᵀ) * B * (W * Wi) * s * W := by
+        simp only [Matrix.transpose_mul, Matrix.mul_assoc]
+    _ = Wᵀ * (sᵀ * B * s) * W := by
+        rw [hT, h1]; simp only [Matrix.mul_one, Matrix.mul_assoc]
+    _ = Wᵀ * B * W := by rw [hs]
